@@ -1415,6 +1415,10 @@ M('C06', "combine_legs (single block) reshapes with order='A' (round-5 seed b)",
   "            res_block_view[:] = self._data[0].reshape(res_block_view.shape)", "            res_block_view[:] = self._data[0].reshape(res_block_view.shape, order='A')",
   'RESHAPE-C-order')
 
+M('C07', 'from_Bflat decides on canonicalisation from the input shapes (round-5 seed a)', 'tenpy/networks/mps.py',
+  "        if res.L > 1 and max(res.chi) > 1:", "        if res.L > 1 and max(B.shape[2] for B in Bflat[:-1]) > 1:",
+  'FORM-canonicalize-all-bonds')
+
 # ---------------------------------------------------------------- C16 / C19
 M('C16', 'GMRES restart: relative residual norm used for normalisation (round-3 seed b)', KRY,
   """        self.total_error.append([npc.norm(self.rs[-1]) / self.b_norm])
